@@ -288,7 +288,7 @@ def _collect_patterns(body, bound):
     if full:
         # keep the smallest few full-coverage terms as alternative patterns
         full.sort(key=lambda t: len(t.sexpr()))
-        pats = full[:6]
+        pats = full[:14]
         if len(bound_ids) >= 2:
             # plus one multi-pattern of single-variable reads (full-coverage terms such as W(b, q) usually do
             # not exist as ground terms before the clause has been instantiated once)
